@@ -49,4 +49,32 @@ MANIFEST = dict(
 )
 
 THEOREMS = [
+    ("DastardV.Props.C05", "DastardV.C05.ljh22_roundtrip"),
+    ("DastardV.Props.C05", "DastardV.C05.ljh22_exact"),
+    ("DastardV.Props.C05", "DastardV.C05.ljh3_roundtrip"),
+    ("DastardV.Props.C05", "DastardV.C05.ljh3_exact"),
+    ("DastardV.Props.C05", "DastardV.C05.off_roundtrip"),
+    ("DastardV.Props.C05", "DastardV.C05.off_exact"),
+    ("DastardV.Props.C05", "DastardV.C05.off_comment_layout_is_stale"),
+    ("DastardV.Props.C05", "DastardV.C05.body_parse_concat_ljh22"),
+    ("DastardV.Props.C05", "DastardV.C05.body_parse_concat_ljh3"),
+    ("DastardV.Props.C05", "DastardV.C05.body_parse_concat_off"),
+    ("DastardV.Props.C05", "DastardV.C05.body_parse_unique_ljh22"),
+    ("DastardV.Props.C05", "DastardV.C05.body_parse_unique_ljh3"),
+    ("DastardV.Props.C05", "DastardV.C05.body_parse_unique_off"),
+    ("DastardV.Props.C05", "DastardV.C05.body_length_ljh22"),
+    ("DastardV.Props.C05", "DastardV.C05.body_length_ljh3"),
+    ("DastardV.Props.C05", "DastardV.C05.body_length_off"),
+    ("DastardV.Props.C05", "DastardV.C05.body_partial_rejected_ljh22"),
+    ("DastardV.Props.C05", "DastardV.C05.body_partial_rejected_ljh3"),
+    ("DastardV.Props.C05", "DastardV.C05.body_partial_rejected_off"),
+    ("DastardV.Props.C05", "DastardV.C05.C05_file_is_header_plus_records"),
+    ("DastardV.Props.C05", "DastardV.C05.C05_file_length"),
+    ("DastardV.Props.C05", "DastardV.C05.C05_disk_is_prefix"),
+    ("DastardV.Props.C05", "DastardV.C05.C05_body_parses_back_ljh22"),
+    ("DastardV.Props.C05", "DastardV.C05.C05_body_parses_back_ljh3"),
+    ("DastardV.Props.C05", "DastardV.C05.C05_body_parses_back_off"),
+    ("DastardV.Props.C05", "DastardV.C05.C05_header_fields"),
+    ("DastardV.Props.C05", "DastardV.C05.C05_header_lengths"),
+    ("DastardV.Props.C05", "DastardV.C05.off_matrix_block_roundtrip"),
 ]
